@@ -321,7 +321,7 @@ pub fn pair<H: Shape + Tagged, T: Shape>(out: &mut Vec<Value>) {
 
 /// plain slices / header erasure with element shape T
 pub fn slice_of<T: Shape>(out: &mut Vec<Value>) {
-    for n in [0usize, 1, 2, 3, 5] {
+    for n in [0usize, 1, 2, 3, 5, 9, 40, 100] {
         let base = json!({"family": "slice", "t": sh::<T>(), "n": n});
         for ctor in ["from_vec", "from_slice", "from_iter_exact", "from_iter_inexact", "new_uninit_slice"] {
             for path in ["drop", "erase_roundtrip_drop", "raw_slice_roundtrip"] {
